@@ -135,6 +135,8 @@ def run(ctx):
                     ctx.violation('quantize(phase %% 2pi) gives level %d outside [0, 2^%d) for phase %r (%s)' % (lvl, bits, q, dt),
                                   {'phase': q, 'dtype': str(dt), 'bits': bits},
                                   {'what': 'quantize_level_range', 'fn': 'quantize', 'tiny_negative_phase': tiny_neg})
+    from .genquantisers import check_generated_quantisers
+    check_generated_quantisers(ctx)        # the definitions regenerated from the source (Generated/Quantisers.lean) vs the real code
 
 
 def replay(ctx, rep):
